@@ -132,6 +132,17 @@ def config(draw, max_levels=1, max_mws=4, posonly=True, nonunique=True, nonreord
                 scope = scope & av_null.get(fid, set(I.BUILTINS))
             mw[ph] = draw(signature(scope, free_p=free_p, posonly=posonly, exclude=('next',)))
     route['ep'] = draw(signature(av['ep'], free_p=free_p, posonly=posonly, exclude=('next', 'context')))
+    pert = None
+    if free_p > 0 and draw(st.floats(0, 1)) < 0.15:
+        # perturbation: one name declared with a default by one function and required by another function of the same phase
+        # (either order); when nothing offers the name the configuration is unsatisfiable although "someone has a default"
+        offered = set(url) | all_res
+        for m_ in stack:
+            for _, pl_ in I.PHASES:
+                offered |= set(m_.get(pl_) or ())
+        unoffered = [n for n in NAMES if n not in offered]
+        phase = draw(st.sampled_from(['request', 'endpoint', 'render']))
+        pert = (phase, draw(st.sampled_from(unoffered + NAMES[:1])), draw(st.booleans()))
     kinds = list(I.EP_KINDS) if all_kinds else ['func']
     route['ep_kind'] = draw(st.sampled_from(kinds))
     if has_rn:
@@ -141,4 +152,19 @@ def config(draw, max_levels=1, max_mws=4, posonly=True, nonunique=True, nonreord
     else:
         route['rn'] = None
         route['ep_returns'] = 'response'
+    if pert:
+        phase, name, optional_first = pert
+        funcs = [mw_[phase] for mw_, _ in by_id.values() if mw_.get(phase) is not None]
+        if phase == 'endpoint':
+            funcs.append(route['ep'])
+        if phase == 'render' and route['rn'] is not None:
+            funcs.append(route['rn'])
+        if len(funcs) >= 2:
+            i1 = draw(st.integers(0, len(funcs) - 2))
+            i2 = draw(st.integers(i1 + 1, len(funcs) - 1))
+            first, second = funcs[i1], funcs[i2]
+            for f_ in (first, second):
+                f_[:] = [p_ for p_ in f_ if p_[0] != name]
+            first.append([name, 'pos', optional_first])
+            second.append([name, 'pos', not optional_first])
     return cfg
